@@ -38,6 +38,10 @@ def scenarios(rng, n, tier):
             elif rng.random() < 0.2:
                 o["raises"] = True
             jobs.append(o)
+        if rng.random() < 0.3:
+            # the usual way a callback gets hold of its scheduler: as an argument (rendered when a failure is logged)
+            for o in rng.sample(jobs, min(2, len(jobs))):     # (rendering the scheduler from k jobs costs ~k! reprs)
+                o["pass_sched"] = True
         # one callback waits until a LATER job of the batch has been entered: with at least two workers a free
         # worker must pick that job up from the queue (m = 0 or m >= 2), whatever the queue order
         if (not barrier) and (not duel) and nj >= 3 and (m == 0 or m >= 2) and rng.random() < 0.35:
